@@ -138,6 +138,28 @@ def _(p):
     return None
 
 
+@replay("c10_clustered")
+def _(p):
+    from formulaic import model_matrix
+    from .c10_meta import metadata_findings
+
+    df = _c10_frame()
+    mm = model_matrix(p["formula"], df, output=p["output"], cluster_by="numerical_factors")
+    for tag, msg in metadata_findings(mm, p["output"], None, clustered=True):
+        if "[factors not in sorted order]" in tag:
+            continue
+        return f"{tag}: {p['formula']!r} (cluster_by='numerical_factors', {p['output']}): {msg}"
+    # each term's slice of the clustered matrix equals the columns its own subset regenerates
+    spec = mm.model_spec
+    full = numpy.asarray(mm.todense() if p["output"] == "sparse" else mm, dtype=float)
+    for t, idx in spec.term_indices.items():
+        sub = spec.subset([t]).get_model_matrix(df)
+        sv = numpy.asarray(sub.todense() if p["output"] == "sparse" else sub, dtype=float).reshape((len(df), -1))
+        if sv.shape[1] != len(idx) or not numpy.allclose(sv, full[:, idx]):
+            return f"term-ranges: {p['formula']!r} (clustered): the columns at term_indices[{t!r}] = {idx} are not the columns that term regenerates"
+    return None
+
+
 @replay("c10_dupnames")
 def _(p):
     from formulaic import model_matrix
@@ -650,6 +672,26 @@ def _(p):
 
 
 # ------------------------------------------------------------------------------------------------ C20
+
+
+@replay("c20_routes")
+def _(p):
+    import pandas
+    from formulaic import Formula, ModelSpec, model_matrix
+
+    f, wrt = p["formula"], p["wrt"]
+    cols = sorted({str(v).split(".")[0] for v in Formula(f).required_variables} | {w for w in wrt})
+    import re
+
+    cols = sorted(set(re.findall(r"`[^`]*`|[A-Za-z_]\w*", f)))
+    cols = [c.strip("`") for c in cols]
+    df = pandas.DataFrame({c: [float(i + 1 + 2 * k) for i in range(4)] for k, c in enumerate(cols)})
+    want = [repr(t) for t in Formula(f).differentiate(*wrt)]
+    got1 = [repr(t) for t in ModelSpec(formula=Formula(f)).differentiate(*wrt).formula]
+    got2 = [repr(t) for t in model_matrix(f, df).model_spec.differentiate(*wrt).formula]
+    if got1 != want or got2 != want:
+        return f"derivative-routes-differ: d/d{wrt} of {f!r}: Formula.differentiate gives {want}, ModelSpec.differentiate {got1} (fresh) / {got2} (materialized)"
+    return None
 
 
 @replay("c20_values")
